@@ -14,6 +14,7 @@ import (
 
 	"kvharness/internal/drv"
 	"kvharness/internal/gen"
+	"kvharness/internal/gentab"
 	"kvharness/internal/mut"
 	"kvharness/internal/render"
 )
@@ -515,6 +516,7 @@ func runC04(r *Result, d *drv.Driver, tier string, seed int64, replay string) {
 func init() { props["C01"] = runC01 }
 
 func runC01(r *Result, d *drv.Driver, tier string, seed int64, replay string) {
+	defer c01PayloadTypes(r)
 	n, rounds := 5000, 1
 	if tier == "thorough" {
 		n, rounds = 40000, 6
@@ -594,5 +596,83 @@ func runC01(r *Result, d *drv.Driver, tier string, seed int64, replay string) {
 			r.Stats["roundtrip-ok"]++
 		}
 		r.mergeStats("gen:", g.Stats)
+	}
+}
+
+// c01PayloadTypes: "Decode(Encode(v)) is an equal value OF THE SAME PAYLOAD TYPES". Which Go type a payload comes back as is
+// decided by the operation -> payload dispatch (BuildFieldValue); the random values of the main run are themselves generated
+// from the dispatch tables read off the code, so a wrong table entry whose type happens to be wire-compatible (Activate /
+// Revoke / Destroy responses all hold one Unique Identifier) is invisible to it. Here every request / response payload type
+// of the package is paired with its operation by NAME (FooBarRequest <-> OPERATION_FOO_BAR, case-insensitively), put into a
+// message, encoded and decoded: if Decode accepts, the payload must come back as that very type.
+func c01PayloadTypes(r *Result) {
+	ops := map[string]kmip.Enum{}
+	for _, c := range gentab.Consts {
+		if strings.HasPrefix(c.Name, "OPERATION_") && c.Typ == "Enum" {
+			ops[strings.ToLower(strings.ReplaceAll(strings.TrimPrefix(c.Name, "OPERATION_"), "_", ""))] = kmip.Enum(c.Num)
+		}
+	}
+	types := gen.StructTypes()
+	g := gen.New(4242)
+	g.WF = true
+	ver := kmip.ProtocolVersion{Major: 1, Minor: 4}
+	names := typeNames(types)
+	for _, tn := range names {
+		var suffix string
+		switch {
+		case strings.HasSuffix(tn, "Request") && tn != "Request":
+			suffix = "Request"
+		case strings.HasSuffix(tn, "Response") && tn != "Response":
+			suffix = "Response"
+		default:
+			continue
+		}
+		op, ok := ops[strings.ToLower(strings.TrimSuffix(tn, suffix))]
+		if !ok {
+			continue
+		}
+		for _, byPtr := range []bool{false, true} {
+			p := g.NewStruct(types[tn])
+			var payload interface{} = p.Interface()
+			if !byPtr {
+				payload = p.Elem().Interface()
+			}
+			var msg interface{}
+			if suffix == "Request" {
+				msg = &kmip.Request{Header: kmip.RequestHeader{Version: ver, BatchCount: 1}, BatchItems: []kmip.RequestBatchItem{{Operation: op, RequestPayload: payload}}}
+			} else {
+				msg = &kmip.Response{Header: kmip.ResponseHeader{Version: ver, TimeStamp: time.Unix(1000000000, 0), BatchCount: 1}, BatchItems: []kmip.ResponseBatchItem{{Operation: op, ResponsePayload: payload}}}
+			}
+			key := fmt.Sprintf("payload type %s under operation %d (by pointer: %v)", tn, uint32(op), byPtr)
+			r.eval(key, true)
+			r.Stats["payload-type-probes"]++
+			var eb bytes.Buffer
+			if err := kmip.NewEncoder(&eb).Encode(msg); err != nil {
+				continue // not every random value is encodable; the main run covers that
+			}
+			var got interface{}
+			var derr error
+			if suffix == "Request" {
+				var m kmip.Request
+				derr = kmip.NewDecoder(bytes.NewReader(eb.Bytes())).Decode(&m)
+				if derr == nil && len(m.BatchItems) == 1 {
+					got = m.BatchItems[0].RequestPayload
+				}
+			} else {
+				var m kmip.Response
+				derr = kmip.NewDecoder(bytes.NewReader(eb.Bytes())).Decode(&m)
+				if derr == nil && len(m.BatchItems) == 1 {
+					got = m.BatchItems[0].ResponsePayload
+				}
+			}
+			if derr != nil {
+				r.Stats["payload-type-probes:not-decodable"]++
+				continue // an operation without a dispatch entry: Decode refuses, no wrong type is reported
+			}
+			if reflect.TypeOf(got) != types[tn] {
+				r.find(Finding{Kind: "violation", What: "Decode(Encode(v)) returned the payload as another Go type than the one encoded", Input: map[string]string{"message": key, "bytes": hx(eb.Bytes())},
+					Expect: tn, Actual: fmt.Sprintf("%T", got)})
+			}
+		}
 	}
 }
